@@ -630,7 +630,20 @@ fn main() {
             Some(l) => format!("{}:{}", l.file(), l.line()),
             None => "?".to_string(),
         };
-        LAST_PANIC.with(|l| *l.borrow_mut() = loc);
+        // the innermost function of the library on the stack: a call site that survives line shifts
+        let bt = std::backtrace::Backtrace::force_capture().to_string();
+        let mut func = String::from("?");
+        for l in bt.lines() {
+            let t = l.trim();
+            if let Some(i) = t.find(": ") {
+                let name = &t[i + 2..];
+                if name.starts_with("cc6502::") || name.starts_with("<cc6502::") {
+                    func = name.to_string();
+                    break;
+                }
+            }
+        }
+        LAST_PANIC.with(|l| *l.borrow_mut() = format!("{}@{}", loc, func));
     }));
     let timeout_ms: u64 = std::env::var("VH_TIMEOUT_MS").ok().and_then(|s| s.parse().ok()).unwrap_or(3000);
     let stdin = std::io::stdin();
